@@ -19,7 +19,8 @@
  3. a failing case is re-executed twice more and reported only if it fails every time.
  4. binding self-test: corrupted observations must be rejected.
 """
-import copy, json, os, random, re, signal, time
+import copy, hashlib, json, os, random, re, signal, time
+from concurrent.futures import ThreadPoolExecutor
 from collections import Counter
 from multiprocessing import Pool
 from .. import tlc, tracecheck, evidence, common
@@ -242,14 +243,18 @@ def build_corpus(ctx):
                           'fd/socket': 'all sequences <= 3 x {pty master, socket fd, pipe | socketpair, TCP} x peer '
                                        '{open, closes at 0..2, resets at 0..2 (TCP)}'}
         else:
-            cases += pty_enumeration(ctx, 4, [9, 19], PRIMARY + DEAD, 'pty-enum4')
-            cases += pty_enumeration(ctx, 4, [9, 19], mid(4, True), 'pty-enum4-mid', limit=60000, rng=rng)
+            cases += pty_enumeration(ctx, 4, [9, 19], PRIMARY + DEAD[:1], 'pty-enum4', with_normal_exit=False)
+            cases += pty_enumeration(ctx, 4, [9, 19], DEAD[1:] + mid(4, True), 'pty-enum4-mid', limit=40000, rng=rng,
+                                     with_normal_exit=False)
             cases += pty_enumeration(ctx, 3, [1, 2, 9, 15, 18, 19], PRIMARY + DEAD + mid(3, True), 'pty-enum3-allsigs')
             cases += fd_enumeration(4)
             cases += sweep(ctx, range(0, 256, 4), TERM_SIGNALS, npaths=6)
-            exhaustive = {'pty': 'all sequences <= 4 over 14 operations x 6 dispositions; <= 3 over 18 operations x 14 '
-                                 'dispositions; mid-sequence deaths at length 4 sampled (60000)',
-                          'fd/socket': 'all sequences <= 4'}
+            exhaustive = {'pty': 'all sequences <= 4 over 14 operations x 5 dispositions (normal, ignores HUP+INT, stopped, '
+                                 'stopped+ignores, already exited); all sequences <= 3 over 19 operations (six signals for '
+                                 'kill) x 13 dispositions incl. deaths / stops at every position; the other deaths at '
+                                 'length 4 sampled (40000, seeded)',
+                          'fd/socket': 'all sequences <= 4 x {pty master, socket fd, pipe | socketpair, TCP} x peer '
+                                       '{open, closes at 0..3, resets at 0..3 (TCP)}'}
     else:
         if quick:
             cases += sweep(ctx, range(256), TERM_SIGNALS, npaths=8)
@@ -258,38 +263,86 @@ def build_corpus(ctx):
                           'pty': 'all sequences <= 3 over 13 operations x 9 dispositions'}
         else:
             cases += sweep(ctx, range(256), TERM_SIGNALS)
-            cases += pty_enumeration(ctx, 4, [9, 19], DEAD + mid(4, False), 'pty-enum4-dead')
+            cases += pty_enumeration(ctx, 4, [9, 19], DEAD + mid(4, False), 'pty-enum4-dead', with_normal_exit=False)
             cases += pty_enumeration(ctx, 3, [1, 2, 9, 15, 18, 19], PRIMARY + DEAD + mid(3, True), 'pty-enum3-allsigs')
-            exhaustive = {'sweep': 'all 256 codes and %d signals x all paths' % len(TERM_SIGNALS),
-                          'pty': 'all sequences <= 4 over 14 operations x 6 death dispositions; <= 3 over 18 operations x 14'}
+            exhaustive = {'sweep': 'all 256 codes and %d signals x all 12 pty / 4 popen paths, + run(withexitstatus=True)' % len(TERM_SIGNALS),
+                          'pty': 'all sequences <= 4 over 14 operations x 6 death dispositions (already exited / killed, exits '
+                                 'before operation 2 / 3 / 4, killed before operation 2); all sequences <= 3 over 19 operations x 13 '
+                                 'dispositions'}
     return cases, exhaustive
 
 
 # --------------------------------------------------------------------------------------------
 # execution + validation
 # --------------------------------------------------------------------------------------------
-def strip(ev):
-    return [{k: v for k, v in e.items() if k not in ('sys', 'final', 'kind')} for e in ev]
+strip = LC.strip
+BATCH = 40000
+# TLC wraps long tuples over several lines
+_VERDICT = re.compile(r'<<\s*"VERDICT",\s*(\d+),\s*("[^"]*"|\d+),\s*"([^"]*)",\s*(\d+)\s*>>')
+
+
+def trace_consts(pid):
+    return TRACE_CONSTS + [('Pid', '= "%s"' % pid)]
 
 
 def execute_all(ctx, pool, cases):
-    outs = pool.map(LC.execute, cases, chunksize=16)
-    errs = [(c, o['error']) for c, o in zip(cases, outs) if 'error' in o]
-    if errs:
-        # one more attempt for machinery hiccups (e.g. fork failing under load), then give up
-        again = pool.map(LC.execute, [c for c, _ in errs], chunksize=1)
-        fixed = {json.dumps(c, sort_keys=True): o for (c, _), o in zip(errs, again)}
-        outs = [fixed.get(json.dumps(c, sort_keys=True), o) if 'error' in o else o for c, o in zip(cases, outs)]
-        errs = [(c, o['error']) for c, o in zip(cases, outs) if 'error' in o]
-        if errs:
-            raise tlc.TLCError('%d case(s) could not be executed, e.g. %s\n%s' % (len(errs), errs[0][0], errs[0][1]))
+    """-> list of ('ok', json text, nontrivial, nops); machinery hiccups get one more attempt"""
+    outs = pool.map(LC.execute_json, cases, chunksize=16)
+    bad = [i for i, o in enumerate(outs) if o[0] == 'error']
+    if bad:
+        again = pool.map(LC.execute_json, [cases[i] for i in bad], chunksize=1)
+        for i, o in zip(bad, again):
+            outs[i] = o
+        bad = [i for i, o in enumerate(outs) if o[0] == 'error']
+        if bad:
+            raise tlc.TLCError('%d case(s) could not be executed, e.g. %s\n%s' % (len(bad), cases[bad[0]], outs[bad[0]][1]))
     return outs
 
 
+def validate_strings(ctx, items, tag, procs=10, timeout=2400):
+    """items: [(id, JSON text of the events)] -> ({id: (verdict, l)}, stats).  Same protocol as
+    tracecheck.validate (N TLC processes, -workers 1, one verdict line per trace) without ever
+    holding the traces as Python objects."""
+    if not items:
+        return {}, dict(generated=0, distinct=0, wall_s=0.0, runs=0)
+    procs = max(1, min(procs, (len(items) + 199) // 200))
+    parts = [items[i::procs] for i in range(procs)]
+    cfg = tlc.write_cfg(os.path.join(ctx.work, '%s.cfg' % tag), spec='TraceSpec', constants=trace_consts(ctx.pid))
+
+    def one(i):
+        tf = os.path.join(ctx.work, '%s.%d.json' % (tag, i))
+        with open(tf, 'w') as f:
+            f.write('[')
+            for k, (tid, js) in enumerate(parts[i]):
+                f.write('%s{"id":%s,"ev":%s}' % (',' if k else '', json.dumps(tid), js))
+            f.write(']')
+        res = tlc.run('LifecycleTrace', cfg, ctx.work, workers=1, timeout=timeout, env={'TRACE_FILE': tf},
+                      outname='%s.%d.out' % (tag, i), heap='3g')
+        v = {}
+        with open(res['out'], errors='replace') as f:
+            for m in _VERDICT.finditer(f.read()):
+                v[json.loads(m.group(2)) if m.group(2).startswith('"') else int(m.group(2))] = (m.group(3), int(m.group(4)))
+        os.unlink(tf)
+        return res, v, len(parts[i])
+
+    t0 = time.time()
+    with ThreadPoolExecutor(procs) as ex:
+        results = list(ex.map(one, range(procs)))
+    verdicts = {}
+    gen = dist = 0
+    for res, v, n in results:
+        if res['machinery_error'] or res['timed_out'] or res['violated'] or len(v) != n:
+            raise tlc.TLCError('trace validation run failed (rc=%s, %d/%d verdicts, violated=%s): %s' % (
+                res['rc'], len(v), n, res['violated'], res['out']))
+        verdicts.update(v)
+        gen += res['generated']
+        dist += res['distinct']
+    return verdicts, dict(generated=gen, distinct=dist, wall_s=round(time.time() - t0, 2), runs=procs,
+                          cmd=results[0][0]['cmd'])
+
+
 def validate(ctx, traces, tag, procs=10):
-    v, st = tracecheck.validate(traces, 'LifecycleTrace', ctx.work, constants=TRACE_CONSTS, procs=procs, tag=tag,
-                                timeout=2400)
-    return v, st
+    return validate_strings(ctx, [(t['id'], json.dumps(t['ev'])) for t in traces], tag, procs)
 
 
 def facts(case, ev, at):
@@ -310,20 +363,6 @@ def facts(case, ev, at):
     }
 
 
-def nontrivial(ev):
-    """the trace shows a death being observed, a descriptor being released, or an environment action"""
-    prev = None
-    for e in ev:
-        if e['e'] == 'env' and e['a'] != 'reuse':
-            return True
-        if e['e'] == 'op':
-            cur = (e['term'], e['closed'], e['proc'], e['fd'], e['eof'])
-            if prev is not None and cur != prev:
-                return True
-            prev = cur
-    return False
-
-
 class NoSuitableTrace(tlc.TLCError):
     pass
 
@@ -341,30 +380,52 @@ def self_test(ctx, uniq, verdicts):
 
     muts = []
 
-    def add(name, pred, change, expect):
-        t, i = find(pred)
+    def add(name, pred, change, expect, optional=False):
+        try:
+            t, i = find(pred)
+        except NoSuitableTrace:
+            if optional:
+                return
+            raise
         c = copy.deepcopy(t)
         c['id'] = name
         change(c['ev'][i])
         muts.append((c, expect))
 
     pty = lambda t: t['ev'][0].get('tr') == 'pty'
-    add('wrong-exitstatus', lambda t, i, e: pty(t) and e['term'] and e['es'] >= 0,
-        lambda e: e.update(es=(e['es'] + 1) % 256), 'C09:wrong-exitstatus')
-    add('both-set', lambda t, i, e: pty(t) and e['term'] and e['es'] >= 0,
-        lambda e: e.update(ss=9), 'C09:both-status-set')
-    add('status-changed', lambda t, i, e: pty(t) and e['term'] and e['ss'] >= 0 and i > 2 and t['ev'][i - 1].get('term'),
-        lambda e: e.update(ss=e['ss'] + 1, sv=e['sv'] + 1), 'C09:')
-    add('wait-return', lambda t, i, e: pty(t) and e['op'] == 'Wait' and e['ret'] == 'int',
-        lambda e: e.update(rv=(e['rv'] + 1) % 256), 'C09:wait-return')
-    add('alive-after-reaped', lambda t, i, e: pty(t) and e['op'] == 'IsAlive' and e['ret'] == 'False' and e['proc'] == 'reaped',
-        lambda e: e.update(ret='True'), 'C10:alive-after-reaped')
-    add('zombie-after-close', lambda t, i, e: pty(t) and e['op'] == 'Close' and e['ret'] == 'None' and e['proc'] == 'reaped',
-        lambda e: e.update(proc='zombie'), 'C10:zombie-leak')
-    add('fd-left-open', lambda t, i, e: e['op'] == 'Close' and e['ret'] == 'None' and e['fd'] == 'closed',
-        lambda e: e.update(fd='open'), 'C10:fd-leak')
-    add('touched', lambda t, i, e: e['op'] == 'Send' and e['fd'] == 'reused' and not e['touched'],
-        lambda e: e.update(touched=True, ret='int', rv=1, exc=False), 'C10:io-after-close')
+    if ctx.pid == 'C09':
+        add('wrong-exitstatus', lambda t, i, e: pty(t) and e['term'] and e['es'] >= 0,
+            lambda e: e.update(es=(e['es'] + 1) % 256), 'C09:wrong-exitstatus')
+        add('both-set', lambda t, i, e: pty(t) and e['term'] and e['es'] >= 0,
+            lambda e: e.update(ss=9), 'C09:both-status-set')
+        add('status-changed', lambda t, i, e: pty(t) and e['term'] and e['ss'] >= 0 and i > 2 and t['ev'][i - 1].get('term'),
+            lambda e: e.update(ss=e['ss'] + 1, sv=e['sv'] + 1), 'C09:')
+        add('status-lost', lambda t, i, e: pty(t) and e['term'] and e['es'] >= 0 and i > 2 and t['ev'][i - 1].get('term'),
+            lambda e: e.update(es=-1, sk='none', sv=-1), 'C09:')
+        add('wait-return', lambda t, i, e: pty(t) and e['op'] == 'Wait' and e['ret'] == 'int',
+            lambda e: e.update(rv=(e['rv'] + 1) % 256), 'C09:wait-return')
+        add('terminated-flag', lambda t, i, e: pty(t) and e['term'] and e['op'] in ('IsAlive', 'Wait', 'Close'),
+            lambda e: e.update(term=False), 'C09:')
+        add('popen-wait-return', lambda t, i, e: t['ev'][0].get('tr') == 'popen' and e['op'] == 'Wait' and e['ret'] == 'int',
+            lambda e: e.update(rv=e['rv'] + 1), 'C09:wait-return', optional=True)   # none accepted while `status` is unset
+    else:
+        add('alive-after-reaped', lambda t, i, e: pty(t) and e['op'] == 'IsAlive' and e['ret'] == 'False' and e['proc'] == 'reaped',
+            lambda e: e.update(ret='True'), 'C10:alive-after-reaped')
+        add('terminated-while-running', lambda t, i, e: pty(t) and not e['term'] and e['proc'] == 'run' and not e['gone'],
+            lambda e: e.update(term=True), 'C10:terminated-while-running')
+        add('zombie-after-close', lambda t, i, e: pty(t) and e['op'] == 'Close' and e['ret'] == 'None' and e['proc'] == 'reaped',
+            lambda e: e.update(proc='zombie'), 'C10:zombie-leak')
+        add('alive-after-force', lambda t, i, e: pty(t) and e['op'] == 'Terminate' and e['arg'] == 1 and e['proc'] == 'reaped',
+            lambda e: e.update(proc='run', ret='False', term=False, es=-1, ss=-1, sk='none', sv=-1), 'C10:force-left-alive')
+        add('fd-left-open', lambda t, i, e: e['op'] == 'Close' and e['ret'] == 'None' and e['fd'] == 'closed',
+            lambda e: e.update(fd='open'), 'C10:fd-leak')
+        add('fd-count', lambda t, i, e: pty(t) and e['op'] == 'Close' and e['ret'] == 'None' and e['dfd'] == 0,
+            lambda e: e.update(dfd=1), 'C10:fd-leak')
+        add('touched', lambda t, i, e: e['op'] == 'Send' and e['fd'] == 'reused' and not e['touched'],
+            lambda e: e.update(touched=True, ret='int', rv=1, exc=False), 'C10:io-after-close')
+        add('second-close-raises', lambda t, i, e: e['op'] == 'Close' and e['ret'] == 'None' and i > 1
+            and t['ev'][i - 1].get('closed') and t['ev'][i - 1].get('e') == 'op' and (not pty(t) or t['ev'][i - 1]['pclosed']),
+            lambda e: e.update(ret='OSError', exc=True), 'C10:')
     add('closed-flag', lambda t, i, e: e['op'] == 'Close' and e['closed'] and i > 1 and not t['ev'][i - 1].get('closed', True),
         lambda e: e.update(closed=False), '')
     v, _ = validate(ctx, [m for m, _ in muts], 'selftest', procs=1)
@@ -390,64 +451,82 @@ def run(ctx):
     ctx.note('model sensitivity: ' + ', '.join('%s -> %s violated' % kv for kv in sorted(sens.items())))
 
     cases, exhaustive = build_corpus(ctx)
-    t0 = time.time()
+    gens = Counter(c['gen'] for c in cases)
+    seen = set()
+    cnt = Counter()
+    failing, drift, harness_bad, pool_ok = [], [], [], []
+    per_gen_ok = Counter()
+    nuniq = nops = nontriv = 0
+    exec_s = tlc_s = 0.0
+    tlc_states = 0
+    tlc_cmd = None
     with Pool(12, initializer=LC.init_worker, initargs=(ctx.work,)) as pool:
-        outs = execute_all(ctx, pool, cases)
-        exec_s = time.time() - t0
-        gens = Counter(c['gen'] for c in cases)
+        for b0 in range(0, len(cases), BATCH):
+            batch = cases[b0:b0 + BATCH]
+            t0 = time.time()
+            outs = execute_all(ctx, pool, batch)
+            exec_s += time.time() - t0
+            # distinct recorded traces only (pids are not logged: equal traces are equal observations)
+            new = []
+            for c, o in zip(batch, outs):
+                h = hashlib.md5(o[1].encode()).digest()
+                if h in seen:
+                    continue
+                seen.add(h)
+                new.append((c, o[1]))
+                nontriv += bool(o[2])
+                nops += o[3]
+            del outs
+            verdicts, st = validate_strings(ctx, [(i, js) for i, (c, js) in enumerate(new)], 'corpus%d' % (b0 // BATCH))
+            tlc_s += st['wall_s']
+            tlc_states += st['distinct']
+            tlc_cmd = st.get('cmd')
+            nuniq += len(new)
+            for i, (c, js) in enumerate(new):
+                v, at = verdicts[i]
+                cnt[v] += 1
+                if v == 'ok':
+                    if per_gen_ok[(c['gen'], c.get('tr'))] < 1500:
+                        per_gen_ok[(c['gen'], c.get('tr'))] += 1
+                        pool_ok.append({'id': len(pool_ok), 'ev': json.loads(js), 'case': c})
+                elif v.startswith('harness:'):
+                    harness_bad.append((c, v, at))
+                elif v.startswith('model:'):
+                    drift.append((c, json.loads(js), v, at))
+                elif v.startswith(pid + ':'):
+                    failing.append((c, json.loads(js), v, at))
+            del new
         ctx.note('%d operation sequences executed on real children / descriptors in %.0fs (%s)' % (
             len(cases), exec_s, ', '.join('%s %d' % kv for kv in sorted(gens.items()))))
-        # distinct recorded traces only (pids are not logged: equal traces are equal observations)
-        seen, uniq, owner = {}, [], {}
-        for i, (c, o) in enumerate(zip(cases, outs)):
-            ev = strip(o['ev'])
-            key = json.dumps(ev, sort_keys=True)
-            if key not in seen:
-                seen[key] = len(uniq)
-                uniq.append({'id': len(uniq), 'ev': ev})
-                owner[len(uniq) - 1] = i
-        nops = sum(1 for t in uniq for e in t['ev'] if e['e'] == 'op')
-        verdicts, st = validate(ctx, uniq, 'corpus')
-        cnt = Counter(v[0] for v in verdicts.values())
-        ctx.note('TLC trace validation (LifecycleTrace): %d distinct traces, %d logged operations, %d states, %.0fs' % (
-            len(uniq), nops, st['distinct'], st['wall_s']))
+        ctx.note('TLC trace validation (LifecycleTrace, Pid=%s): %d distinct traces, %d logged operations, %d states, %.0fs' % (
+            pid, nuniq, nops, tlc_states, tlc_s))
         ctx.note('verdicts: ' + ', '.join('%s x%d' % kv for kv in sorted(cnt.items())))
-        bad_h = [(t['id'], verdicts[t['id']]) for t in uniq if verdicts[t['id']][0].startswith('harness:')]
-        if bad_h:
-            i = owner[bad_h[0][0]]
-            raise tlc.TLCError('harness-level verdict (bug in /verif): %s on case %s' % (bad_h[0][1], cases[i]))
-        drift = [t for t in uniq if verdicts[t['id']][0].startswith('model:')]
-        for t in drift[:3]:
-            v, at = verdicts[t['id']]
-            ctx.note('SPEC-DRIFT %s at event %d: case %s event %s' % (v, at - 1, json.dumps(cases[owner[t['id']]])[:300],
-                                                                      json.dumps(t['ev'][at - 2])[:400]))
+        for c, ev, v, at in drift[:3]:
+            ctx.note('SPEC-DRIFT %s at event %d: case %s event %s' % (v, at - 1, json.dumps(c)[:300], json.dumps(ev[at - 2])[:400]))
         ctx.drift = len(drift)
         # ---- failing cases: re-run twice more, report only what fails every time ----
-        failing = [t for t in uniq if verdicts[t['id']][0].startswith(pid + ':')]
-        other = Counter(verdicts[t['id']][0] for t in uniq
-                        if verdicts[t['id']][0] != 'ok' and not verdicts[t['id']][0].startswith((pid + ':', 'model:')))
-        if other:
-            ctx.note('clauses of the sister property seen in this corpus (reported by its own check): ' +
-                     ', '.join('%s x%d' % kv for kv in sorted(other.items())))
         confirmed = []
         if failing:
-            fcases = [cases[owner[t['id']]] for t in failing]
-            reruns = []
+            fcases = [f[0] for f in failing]
+            items = []
             for r in range(2):
                 o2 = execute_all(ctx, pool, fcases)
-                reruns.append([{'id': '%d.%d' % (r, j), 'ev': strip(o['ev'])} for j, o in enumerate(o2)])
-            v2, _ = validate(ctx, reruns[0] + reruns[1], 'rerun')
-            for j, t in enumerate(failing):
-                again = [v2['%d.%d' % (r, j)][0] for r in range(2)]
-                if all(a.startswith(pid + ':') for a in again):
-                    confirmed.append(t)
+                items += [('%d.%d' % (r, j), o[1]) for j, o in enumerate(o2)]
+            v2, _ = validate_strings(ctx, items, 'rerun')
+            for j, f in enumerate(failing):
+                if all(v2['%d.%d' % (r, j)][0].startswith(pid + ':') for r in range(2)):
+                    confirmed.append(f)
             ctx.note('%d failing trace(s), %d fail on both re-executions' % (len(failing), len(confirmed)))
-    for t in confirmed:
-        v, at = verdicts[t['id']]
-        c = cases[owner[t['id']]]
-        ctx.fail(v, {'case': c}, detail={'failing_event': at - 1, 'events': t['ev'][:at - 1]}, signature=facts(c, t['ev'], at))
+    if harness_bad and not confirmed:
+        raise tlc.TLCError('harness-level verdict (bug in /verif): %s at %d on case %s' % (
+            harness_bad[0][1], harness_bad[0][2], harness_bad[0][0]))
+    if harness_bad:
+        ctx.note('%d harness-level verdicts (e.g. %s) next to the violations reported below' % (len(harness_bad), harness_bad[0][1]))
+    for c, ev, v, at in confirmed:
+        ctx.fail(v, {'case': c}, detail={'failing_event': at - 1, 'events': ev[:at - 1]}, signature=facts(c, ev, at))
+    verd_of = {t['id']: ('ok', 0) for t in pool_ok}
     try:
-        st_self = self_test(ctx, uniq, verdicts)
+        st_self = self_test(ctx, pool_ok, verd_of)
         ctx.note('binding self-test: ' + ', '.join('%s -> %s' % kv for kv in sorted(st_self.items())))
     except NoSuitableTrace as e:
         if not confirmed:
@@ -457,13 +536,12 @@ def run(ctx):
         st_self = {'skipped': str(e)}
         ctx.note('binding self-test skipped (%s); %d violating traces are reported instead' % (e, len(confirmed)))
     status, nviol, nknown = common.conclude(ctx)
-    nontriv = sum(1 for t in uniq if nontrivial(t['ev']))
-    mid_i = len(uniq) // 2
-    samples = [{'case': cases[owner[t['id']]], 'events': t['ev'], 'verdict': verdicts[t['id']][0]}
-               for t in (uniq[mid_i], uniq[-1])]
+    samples = [{'case': t['case'], 'events': t['ev'], 'verdict': 'ok'} for t in (pool_ok[len(pool_ok) // 2:][:1] + pool_ok[-1:])]
+    if confirmed:
+        samples.append({'case': confirmed[0][0], 'events': confirmed[0][1], 'verdict': confirmed[0][2]})
     evidence.write(pid, ctx.tier, ctx.seed, 'model_checking', {
         'states': mc['distinct'], 'transitions': mc['generated'],
-        'traces_validated_against_impl': len(uniq), 'samples': samples,
+        'traces_validated_against_impl': nuniq, 'samples': samples,
         'evaluations': len(cases), 'distinct_nontrivial': nontriv,
         'rule': 'one execution per (transport, disposition, environment action placement, operation sequence) of the '
                 'enumeration / sweep, each on a fresh real child or descriptor; distinct = distinct recorded event sequence '
@@ -477,18 +555,20 @@ def run(ctx):
                   'invariants': INVARIANTS[pid] + (['StatusStable (action property)'] if pid == 'C09' else []),
                   'action_coverage': mc['coverage'],
                   'deviation_sensitivity': sens},
-        'trace_validation': {'module': 'LifecycleTrace', 'tlc_states': st['distinct'], 'cmd': st.get('cmd'),
+        'trace_validation': {'module': 'LifecycleTrace', 'tlc_states': tlc_states, 'cmd': tlc_cmd,
                              'verdict_counts': dict(cnt), 'self_test': st_self},
         'spec_drift': ctx.drift, 'known_findings_hit': nknown,
-        'wall_split_s': {'model_check': mc['wall_s'], 'execution': round(exec_s, 1), 'trace_validation': st['wall_s']},
+        'wall_split_s': {'model_check': mc['wall_s'], 'execution': round(exec_s, 1), 'trace_validation': round(tlc_s, 1)},
     }, assumptions=[
         'a signal has taken effect when the code looks next: the delayafterclose / delayafterterminate pauses are replaced '
         'by explicit synchronisation (waitid(WNOWAIT) for the zombie / the stop), never by sleeping',
-        'the child (a /bin/sh script) has default dispositions except HUP+INT when "ignore"; it never writes to its terminal',
+        'the child (a /bin/sh script) has default dispositions except HUP+INT when "ignore" (and SIGPIPE / SIGXFSZ, which a '
+        'pty child inherits as ignored from the interpreter); it never writes to its terminal',
         'the freed descriptor number is taken by someone else as soon as it is free (adversarial environment)',
         'ptyprocess (outside /repo) is part of the system under test as installed',
         'PopenSpawn: only the C09 half (wait / kill / sendeof / expect(EOF)); kill() on a reaped pid is not driven '
         '(the pid may have been recycled on this machine)',
+        'each check reports its own property: the sister property\'s clauses are not evaluated in its runs',
     ], wall_s=ctx.wall(), violations=nviol)
     return status
 
